@@ -272,3 +272,38 @@ pub mod poker {
         best
     }
 }
+
+/// Watchdog for calls into the real code that may not terminate: `enter(op)` before the call,
+/// `leave()` after. If one call stays in progress longer than the limit, the watchdog writes
+/// `<out>/hang.json` naming the operation and exits the process with status 4; `./check` reports
+/// it as a failing input of class `does-not-terminate`.
+pub struct Watch {
+    cur: std::sync::Arc<std::sync::Mutex<Option<(String, std::time::Instant)>>>,
+}
+impl Watch {
+    pub fn start(out_dir: &str, limit_s: u64) -> Watch {
+        let cur: std::sync::Arc<std::sync::Mutex<Option<(String, std::time::Instant)>>> = Default::default();
+        let c2 = cur.clone();
+        let dir = out_dir.to_string();
+        std::thread::spawn(move || loop {
+            std::thread::sleep(std::time::Duration::from_millis(500));
+            let g = c2.lock().unwrap();
+            if let Some((op, t)) = g.as_ref() {
+                if t.elapsed().as_secs() >= limit_s {
+                    let _ = std::fs::write(
+                        format!("{dir}/hang.json"),
+                        format!("{{\"class\": \"does-not-terminate\", \"input\": {}, \"expected\": \"the call returns\", \"got\": \"still running after {} s\"}}", json_str(op), limit_s),
+                    );
+                    std::process::exit(4);
+                }
+            }
+        });
+        Watch { cur }
+    }
+    pub fn enter(&self, op: &str) {
+        *self.cur.lock().unwrap() = Some((op.to_string(), std::time::Instant::now()));
+    }
+    pub fn leave(&self) {
+        *self.cur.lock().unwrap() = None;
+    }
+}
